@@ -33,7 +33,7 @@ BUDGET_S = {'quick': 240, 'thorough': 900}
 
 def bounds(tier):
     f = family()
-    return {'patterns': len(f['pats']), 'targets': len(f['targets']), 'seeds': len(f['seeds']), 'pattern_lists': 200 if tier == 'quick' else 40000}
+    return {'patterns': len(f['pats']), 'targets': len(f['targets']), 'seeds': len(f['seeds']), 'pattern_lists': 200 if tier == 'quick' else 40000, 'generated_patterns': '%d seeded (grammar: first-order and higher-order schematic variables under 0-2 binders), each against 3 of its instances and 2 unrelated targets, 3 seeds' % (300 if tier == 'quick' else 20000)}
 
 
 def setup(tier, seed):
@@ -282,6 +282,107 @@ def run_pairs(u, out):
     out['samples'].append({'pattern': str(pat), 'targets': len(F['targets']), 'seeds': len(F['seeds'])})
 
 
+def gen_pattern(rnd):
+    """A random well-typed pattern over the schematic signature: schematic variables ?x ?y (first order), ?F ?Q ?H (applied to
+    bound variables: Miller patterns, or to arbitrary terms: non-patterns), under 0-2 binders.  -> (kind, pattern)"""
+    from kernel.type import STVar, TFun, BoolType
+    from kernel.term import Var, SVar, Lambda, Eq, Forall
+    SA = STVar('a')
+    x, y = SVar('x', SA), SVar('y', SA)
+    sf, sP, sh = SVar('F', TFun(SA, SA)), SVar('Q', TFun(SA, BoolType)), SVar('H', TFun(SA, SA, SA))
+    fS, gS, PS, aS = Var('f', TFun(SA, SA)), Var('g', TFun(SA, SA, SA)), Var('P', TFun(SA, BoolType)), Var('a', SA)
+    ho = [False]
+
+    def term(d, bound):
+        opts = ['x', 'y', 'a', 'f', 'g'] + (['b'] * 2 if bound else []) + ['F', 'H']
+        k = rnd.choice(opts) if d > 0 else rnd.choice(['x', 'y', 'a'] + (['b'] if bound else []))
+        if k == 'x':
+            return x
+        if k == 'y':
+            return y
+        if k == 'a':
+            return aS
+        if k == 'b':
+            return rnd.choice(bound)
+        if k == 'f':
+            return fS(term(d - 1, bound))
+        if k == 'g':
+            return gS(term(d - 1, bound), term(d - 1, bound))
+        ho[0] = True
+        if k == 'F':
+            return sf(rnd.choice(bound) if bound and rnd.random() < 0.7 else term(d - 1, bound))
+        return sh(rnd.choice(bound) if bound and rnd.random() < 0.7 else term(d - 1, bound), rnd.choice(bound) if bound and rnd.random() < 0.7 else term(d - 1, bound))
+
+    def prop(d, bound):
+        k = rnd.choice(['eq', 'P', 'Q', 'all'] if len(bound) < 2 else ['eq', 'P', 'Q'])
+        if k == 'eq':
+            return Eq(term(d, bound), term(d, bound))
+        if k == 'P':
+            return PS(term(d, bound))
+        if k == 'Q':
+            ho[0] = True
+            return sP(rnd.choice(bound) if bound and rnd.random() < 0.7 else term(d, bound))
+        v = Var('u%d' % len(bound), SA)
+        return Forall(v, prop(d, bound + [v]))
+    shape = rnd.choice(['prop', 'prop', 'term', 'lam', 'lam2'])
+    if shape == 'prop':
+        p_ = prop(2, [])
+    elif shape == 'term':
+        p_ = term(2, [])
+    elif shape == 'lam':
+        v = Var('u0', SA)
+        p_ = Lambda(v, term(2, [v]))
+    else:
+        v, w = Var('u0', SA), Var('u1', SA)
+        p_ = Lambda(v, Lambda(w, term(2, [v, w])))
+    return ('ho' if ho[0] else 'fo'), p_
+
+
+def run_generated(u, out):
+    """Generated patterns against (a) their own instances over the pools and (b) instances of other generated patterns."""
+    from kernel.term import Inst
+    from kernel.type import TyInst
+    _, tier, seed, lo, n = u
+    F = family()
+    pools, A = F['pools'], F['A']
+    rnd = random.Random('c09g-%s-%s' % (seed, lo))
+    prev_targets = []
+    for k in range(n):
+        kind, pat = gen_pattern(rnd)
+        names = sorted({sv.name for sv in pat.get_svars()})
+        targets = []
+        for _ in range(3):
+            choice = {nm: rnd.choice(pools[nm]) for nm in names}
+            try:
+                inst = Inst(**choice)
+                t = pat.subst_type(TyInst(a=A)).subst(inst).beta_norm()
+                targets.append((t, True))
+            except Exception:
+                continue
+        targets += [(t, False) for t in prev_targets[-2:]]
+        for t, is_inst in targets:
+            for sd in (None, {}, {'x': Var_u(A)} if 'x' in names else {}):
+                out['evals'] += 1
+                if os.environ.get('VERIF_TWIN'):
+                    if len(out['cex']) < 2:
+                        out['cex'].append({'kind': 'twin', 'part': 'gen'})
+                    continue
+                kk, detail, matched = check_match(pat, kind, t, sd, is_inst)
+                if matched or is_inst:
+                    out['keys'].add('g|%r|%r|%s' % (pat, t, sd))
+                if kk:
+                    out['cex'].append({'kind': kk, 'part': 'gen', 'seed': seed, 'lo': lo, 'k': k, 'detail': detail, 'sig': '%s|g|%r|%r' % (kk, pat, t)})
+        prev_targets += [t for t, _ in targets[:1]]
+        if len(out['cex']) >= 12:
+            break
+    out['samples'].append({'generated_pattern': str(pat)})
+
+
+def Var_u(A):
+    from kernel.term import Var
+    return Var('u', A)
+
+
 def run_lists(u, out):
     """first_order_match_list on pairs of (pattern, instance)."""
     from logic import matcher
@@ -338,6 +439,9 @@ def run_lists(u, out):
 def units(tier, seed):
     F = family()
     us = [('pairs', tier, seed, pi) for pi in range(len(F['pats']))]
+    ng = 300 if tier == 'quick' else 20000
+    for lo in range(0, ng, 30):
+        us.append(('gen', tier, seed, lo, 30))
     n = 200 if tier == 'quick' else 40000
     for lo in range(0, n, 50):
         us.append(('lists', tier, seed, lo, 50))
@@ -349,6 +453,8 @@ def run_unit(u):
     out = {'evals': 0, 'keys': set(), 'cex': [], 'samples': [], 'inconclusive': 0, 'stats': {}}
     if u[0] == 'pairs':
         run_pairs(u, out)
+    elif u[0] == 'gen':
+        run_generated(u, out)
     else:
         run_lists(u, out)
     out['keys'] = list(out['keys'])
@@ -358,6 +464,11 @@ def run_unit(u):
 def replay(c):
     if c['kind'] == 'twin':
         return True, 'twin'
+    if c['part'] == 'gen':
+        out = {'evals': 0, 'keys': set(), 'cex': [], 'samples': [], 'inconclusive': 0, 'stats': {}}
+        run_generated(('gen', 'quick', c['seed'], c['lo'], c['k'] + 1), out)
+        m = [x for x in out['cex'] if x['k'] == c['k'] and x['kind'] == c['kind']]
+        return bool(m), m[0]['detail'] if m else 'not reproduced'
     if c['part'] == 'list':
         out = {'evals': 0, 'keys': set(), 'cex': [], 'samples': [], 'inconclusive': 0, 'stats': {}}
         run_lists(('lists', 'quick', c['seed'], c['lo'], c['k'] + 1), out)
